@@ -1,0 +1,41 @@
+//go:build verif
+
+package hotline
+
+import (
+	"context"
+	"io"
+)
+
+// Export shims for the verification harness.  Compiled only with -tags verif; they add no behaviour, they only
+// make unexported entry points reachable from another package.
+
+// VerifHandleNewConnection runs the control connection loop on rwc.
+func (s *Server) VerifHandleNewConnection(ctx context.Context, rwc io.ReadWriteCloser, remoteAddr string) error {
+	return s.handleNewConnection(ctx, rwc, remoteAddr)
+}
+
+// VerifHandleFileTransfer runs the transfer connection handler on rwc.
+func (s *Server) VerifHandleFileTransfer(ctx context.Context, rwc io.ReadWriter, remoteAddr string) error {
+	return s.handleFileTransfer(context.WithValue(ctx, contextKeyReq, requestCtx{remoteAddr: remoteAddr}), rwc)
+}
+
+// VerifProcessOutbox runs the outbox loop (never returns).
+func (s *Server) VerifProcessOutbox() { s.processOutbox() }
+
+// VerifOutbox gives access to the outbox channel so handler-level runs can drain it.
+func (s *Server) VerifOutbox() chan Transaction { return s.outbox }
+
+// VerifSendTransaction writes one transaction to its recipient.
+func (s *Server) VerifSendTransaction(t Transaction) error { return s.sendTransaction(t) }
+
+// VerifHandleTransaction dispatches one transaction for cc.
+func (cc *ClientConn) VerifHandleTransaction(t Transaction) { cc.handleTransaction(t) }
+
+// VerifPerformHandshake performs the server side of the handshake.
+func VerifPerformHandshake(rw io.ReadWriter) error { return performHandshake(rw) }
+
+// VerifTransactionScanner exposes the transaction split function.
+func VerifTransactionScanner(data []byte, atEOF bool) (int, []byte, error) {
+	return transactionScanner(data, atEOF)
+}
